@@ -166,6 +166,22 @@ def c151(ctx):
                             skip = True
             ctx.check(R, g, "skips-unknown", skip, "%s::unpack skips unknown (number, wire type) pairs and continues" % ty,
                       "%s::unpack does not skip unknown fields" % ty)
+    # every loop over the fields of a message -- also the nested anonymous message of a struct-like enum variant -- can pass over a
+    # field it does not know: from each FieldIterator::next there is a way back to it that decodes nothing and reports nothing
+    nloops = 0
+    for ty in sorted(by_type):
+        g = by_type[ty].get("unpack")
+        if g is None or "pack_sz" not in by_type[ty] or not pack_table(by_type[ty]["pack_sz"]):
+            continue
+        heads = [h for h in P.call_points(g, r"prototk::FieldIterator.*Iterator>::next$") if P.reach(g, P.after(g, h), [h]) is not None]
+        decode = set(P.call_points(g, r"prototk::unpack_as$|FieldUnpackHelper.*::merge_field$"))
+        for h in heads:
+            nloops += 1
+            q = P.reach(g, P.after(g, h), [h], avoid=decode | set(P.error_points(g)) | set(P.return_points(g)))
+            ctx.check(R, g, "loop-skips-unknown", q is not None, "%s::unpack: a field loop passes over fields it does not know" % ty,
+                      "%s::unpack: a loop over the fields of a (nested) message has no way round an unknown field -- it is an error there, while every "
+                      "other message skips it: a reader one version behind cannot decode a struct-like enum variant that gained a field" % ty, pt=h)
+    ctx.floor(R, "field loops in derived decoders", nloops, 8)
     ctx.floor(R, "derived message types", n_types, 8)
     if skipped:
         ctx.notes.append("C15.1: enums with struct-like variants not table-checked: %s" % skipped)
